@@ -147,6 +147,13 @@ impl Arena {
             t => Err(format!("bad nonce tag {t}")),
         }
     }
+    pub fn nonce_any(&self, id: usize) -> Result<u64, String> {
+        let a = self.arr(id)?;
+        match self.str(a[0])? {
+            "hex" => u64::from_str_radix(self.str(a[1])?, 16).map_err(|e| e.to_string()),
+            _ => self.nonce(id),
+        }
+    }
     /// Render a node back to JSON (for replay files / samples).
     pub fn to_json(&self, id: usize) -> Value {
         match &self.nodes[id] {
@@ -252,6 +259,20 @@ impl<'a> Evaluator<'a> {
                 let ikm = self.eval(a[2])?;
                 Ok(prims::hkdf(ps.hash, &ck, &ikm, ar.num(a[3])? as usize))
             },
+            "byte" => Ok(vec![ar.num(a[1])? as u8]),
+            "cat" => self.eval_seq(a[1]),
+            "xorpad" => {
+                let mut v = self.eval(a[1])?;
+                let b = ar.num(a[2])? as u8;
+                if v.len() > ps.hash.block_len() {
+                    return Err("xorpad: key longer than BLOCKLEN".into());
+                }
+                v.resize(ps.hash.block_len(), 0);
+                for x in v.iter_mut() {
+                    *x ^= b;
+                }
+                Ok(v)
+            },
             "trunc" => {
                 let mut v = self.eval(a[1])?;
                 let n = ar.num(a[2])? as usize;
@@ -263,7 +284,7 @@ impl<'a> Evaluator<'a> {
             },
             "aead" => {
                 let k = self.eval(a[1])?;
-                let n = ar.nonce(a[2])?;
+                let n = ar.nonce_any(a[2])?;
                 let ad = self.eval(a[3])?;
                 let pt = self.eval(a[4])?;
                 Ok(prims::aead_encrypt(ps.cipher, &k, n, &ad, &pt))
